@@ -7,6 +7,7 @@
 //   solve_lgmres     side M K always_reset maxiter tol abstol ns        A PREC f x0
 //   solve_idrs       s omega smoothing replacement maxiter tol abstol ns   A PREC f x0  RAW
 //   solve_bicgstabl  side L delta convex maxiter tol abstol ns          A PREC f x0
+//   bicgstabl_vs_bicgstab side L delta convex maxiter tol abstol ns   A PREC f x0      (C05h: BiCGStab(1) = BiCGStab; result of solve_bicgstabl)
 //   lgmres_vs_gmres  side M K always_reset maxiter tol abstol ns        A PREC f x0      (C05: first cycle of LGMRES(M,K) =
 //       GMRES(M+K)): result line = that of solve_lgmres on a fresh object; oracle: the REAL solver::gmres with restart length
 //       M+K is run on the same input, and both runs go through a preconditioner object that records the addresses of the
@@ -41,6 +42,7 @@
 #include <amgcl/solver/lgmres.hpp>
 #include <amgcl/solver/idrs.hpp>
 #include <amgcl/solver/bicgstabl.hpp>
+#include <amgcl/solver/bicgstab.hpp>
 #include <tuple>
 #include <random>
 #include <cstring>
@@ -62,6 +64,7 @@ typedef amgcl::solver::fgmres<Backend> FGMRES;
 typedef amgcl::solver::lgmres<Backend> LGMRES;
 typedef amgcl::solver::idrs<Backend>   IDRS;
 typedef amgcl::solver::bicgstabl<Backend> BICGSTABL;
+typedef amgcl::solver::bicgstab<Backend>  BICGSTAB;
 
 // read/write access to the private member idrs::P (explicit-instantiation idiom; no change to /repo)
 typedef std::vector<std::shared_ptr<Backend::vector>> VecList;
@@ -435,6 +438,40 @@ static Result execute(const Toks &t) {
         r.nontrivial = applies && p.K >= 1 && tl.o.it >= 2;
         return r;
     }
+    else if (op == "bicgstabl_vs_bicgstab") {
+        // C05h `bicgstabl_L1_is_bicgstab`: BiCGStab(1) and BiCGStab walk through the same iterates.  The two codes differ
+        // in the comparison with the threshold (bicgstab: `res > eps` / `norm(s) > eps`, bicgstabl: `zeta >= eps` /
+        // `zeta < eps`) and in WHEN a breakdown is noticed (bicgstabl tests rho1 and sigma at once, bicgstab tests the
+        // previous rho one pass later and never sigma).  Up to the first norm that EQUALS eps the trajectories coincide,
+        // and at that point bicgstab returns with res == eps; hence: verdict iff both return normally and the residual
+        // bicgstab reports is not exactly eps.  Independently: whenever bicgstab throws, bicgstabl must have thrown.
+        Prm p = parse_prm(S_BICGSTABL, c);
+        CallData d = parse_call(c);
+        c.expect_end(); validate(d);
+        BICGSTABL SL(d.n(), bl_prm(p));
+        Out ol = call(SL, d);
+        oracle(p, d, ol, r, true);
+        r.out = show(ol);
+        r.tag("bicgstabl_vs_bicgstab"); r.tag(p.left ? "left" : "right"); r.tag("L" + std::to_string(p.L)); if (p.delta > 0) r.tag("delta");
+        if (p.L != 1) { r.tag("L_not_1"); return r; }
+        BICGSTAB::params q; q.pside = side_of(p); q.check_after = false; q.maxiter = p.maxiter; q.tol = p.tol; q.abstol = p.abstol; q.ns_search = p.ns; q.verbose = false;
+        BICGSTAB SB(d.n(), q);
+        Out ob = call(SB, d);
+        if (ob.thrown) { r.tag("bicgstab_threw"); if (O_C05 && !ol.thrown) r.fail("bicgstab throws (zero rho / zero omega) but bicgstabl with L = 1 returns normally on the same input"); return r; }
+        if (ol.thrown) { r.tag("bicgstabl_threw_only"); return r; }
+        Q nf = nrm(d.f); const bool tiny = nf < mach_eps();
+        if (tiny && !p.ns) { r.tag("zero_rhs"); if (O_C05 && !same_out(ol, ob)) r.fail("zero rhs: bicgstabl(L=1) and bicgstab differ"); return r; }
+        if (tiny) nf = Q(1);
+        Q epsT = std::max(p.tol * nf, p.abstol);
+        if ((ob.res * nf).v == epsT.v) { r.tag("residual_equals_eps"); return r; }      // `>` vs `>=`: no verdict
+        r.tag("L1_is_bicgstab"); r.tag("it" + std::to_string(ob.it));
+        if (O_C05 && !same_out(ol, ob)) {
+            std::ostringstream m; m << "BiCGStab(1) and BiCGStab differ on the same input: bicgstabl " << show(ol) << " | bicgstab " << show(ob);
+            r.fail(m.str());
+        }
+        r.nontrivial = ob.it >= 2;
+        return r;
+    }
     else if (op.rfind("dblhist_", 0) == 0) {
         std::string sn = op.substr(8); bool dbl_ok = false;
         for (int k = S_GMRES; k <= S_BICGSTABL; ++k) if (sn == solver_name(k)) { solver = k; dbl_ok = true; }
@@ -696,6 +733,21 @@ static void generate(Rng &rng, const Opts &o, std::vector<std::string> &lines) {
         long mx = rng.coin(3, 4) ? rng.range(1, std::min<long>(M + K, 4)) : rng.range(0, 4);
         l << (rng.coin() ? "left" : "right") << M << K << rng.coin();
         if (rng.coin(2, 3)) l << mx << Q(0) << Q(0) << 0L; else l << mx << gen_tol(rng) << gen_abstol(rng) << rng.coin(1, 6);
+        put_call2(rng, l, n);
+        lines.push_back(l.get());
+    }
+    // BiCGStab(1) vs BiCGStab (C05h): generated after everything else (the earlier stream is unchanged)
+    lines.push_back("bicgstabl_vs_bicgstab right 1 0 1 4 0 0 0 3 3 2 0 4 1 -1 3 0 -1 1 4 2 -1 2 1 -1 2 4 diag 3 1/4 1/4 1/4 3 1 2 3 3 1 -1 2");
+    lines.push_back("bicgstabl_vs_bicgstab left 1 1/2 0 3 1/1000 0 0 2 2 2 0 2 1 1 2 0 1 1 3 diag 2 1/2 1/3 2 1 3 2 1 1");
+    lines.push_back("bicgstabl_vs_bicgstab right 2 0 1 4 0 0 0 2 2 2 0 2 1 1 2 0 1 1 3 id 2 1 3 2 0 0");      // L = 2: model only
+    lines.push_back("bicgstabl_vs_bicgstab right 1 0 1 4 0 0 0 2 2 0 0 id 2 1 2 2 0 0");                      // zero matrix: both throw / sigma
+    lines.push_back("bicgstabl_vs_bicgstab right 0 0 1 4 0 0 0 2 2 1 0 1 1 1 1 id 2 1 2 2 0 0");              // L = 0: bad-input
+    for (long k = 0; k < N / 6; ++k) {
+        Line l;
+        long n = rng.range(1, nmax);
+        static const std::vector<Q> dl = { Q(0), Q(0), Q(0), Q::frac(1, 100), Q::frac(1, 2), Q(1), Q(5) };
+        l << "bicgstabl_vs_bicgstab" << (rng.coin() ? "left" : "right") << 1L << rng.pick(dl) << rng.coin();
+        if (rng.coin(1, 2)) l << rng.range(1, 5) << Q(0) << Q(0) << 0L; else l << rng.range(0, 6) << gen_tol(rng) << gen_abstol(rng) << rng.coin(1, 6);
         put_call2(rng, l, n);
         lines.push_back(l.get());
     }
